@@ -1827,7 +1827,12 @@ impl<T: PPGEvaluatorStrategy> PPGEvaluator<T> {
                                     "No history for {}, but found {} to use instead",
                                     upstream_id, x
                                 );
-                                history.get(&x).map(Cow::from)
+                                // what *this* downstream last consumed from the job under its
+                                // old name - not the old job's own record, which may be newer
+                                // (it re-ran while the downstream did not) or gone (it failed)
+                                history
+                                    .get(&format!("{}!!!{}", x, downstream_id))
+                                    .map(Cow::from)
                             }
                             None => None,
                         }
